@@ -186,14 +186,16 @@ func resCode(o *opRec) []int64 {
 		}
 		return 0
 	}
-	// a panic is projected to "the operation did not take effect" (ok = false)
+	if o.panicked != "" { // send on / close of a closed channel
+		return []int64{5, 0, 0, 0}
+	}
 	switch o.k {
 	case 'S':
-		return []int64{0, b(o.ok && o.panicked == ""), 0, 0}
+		return []int64{0, b(o.ok), 0, 0}
 	case 'R':
 		return []int64{1, b(o.ok), 0, *o.slot}
 	case 's':
-		return []int64{2, b(o.ok && o.panicked == ""), 0, 0}
+		return []int64{2, b(o.ok), 0, 0}
 	case 'r':
 		return []int64{3, b(o.ok), b(o.ok2), *o.slot}
 	}
@@ -288,6 +290,7 @@ type hop struct {
 	pending  bool
 	ok, ok2  bool
 	got      int64
+	panicked bool
 }
 
 const inf = 1 << 30
@@ -342,17 +345,21 @@ func (l *lin) search(mask uint32, q []int64, closed bool) bool {
 		m1 := mask | 1<<uint(i)
 		switch o.k {
 		case 'C':
-			if l.search(m1, q, true) { // close of a closed channel: flagged separately
+			// a normal return closes an open channel; a panic needs a closed one
+			if o.panicked == closed && l.search(m1, q, true) {
 				return true
 			}
 		case 'S', 's':
 			if !o.ok {
-				// blocking send: only the "panic" outcome, needs closed.  try-send:
-				// buffered needs full or closed; unbuffered may always find no receiver
-				if closed || (o.k == 's' && (l.cap == 0 || len(q) == l.cap)) {
-					if l.search(m1, q, closed) {
-						return true
-					}
+				// panic (or, for ChanSend, a false result): the channel is closed.
+				// try-send returning false: open channel, buffered needs a full
+				// buffer, unbuffered may always find no receiver
+				okHere := closed
+				if o.k == 's' && !o.panicked {
+					okHere = !closed && (l.cap == 0 || len(q) == l.cap)
+				}
+				if okHere && l.search(m1, q, closed) {
+					return true
 				}
 				continue
 			}
@@ -438,7 +445,7 @@ func (r *run) hops() []hop {
 	var hs []hop
 	for _, os := range r.ops {
 		for _, o := range os {
-			h := hop{k: o.k, val: o.val, inv: o.inv, ret: o.ret, ok: o.ok && o.panicked == "", ok2: o.ok2, got: *o.slot}
+			h := hop{k: o.k, val: o.val, inv: o.inv, ret: o.ret, ok: o.ok && o.panicked == "", ok2: o.ok2, got: *o.slot, panicked: o.panicked != ""}
 			if o.ret < 0 {
 				h.pending, h.ret = true, inf
 			}
@@ -473,6 +480,9 @@ func (r *run) oracle() {
 			}
 			if o.k == 'S' && !o.ok {
 				viol("send-on-closed-returns-false-no-panic", "ChanSend on a closed channel returned false instead of panicking", r)
+			}
+			if o.k == 's' && !o.ok && r.ch.close && closedBeforeInvoke(r, o) {
+				viol("trysend-on-closed-returns-false-no-panic", "ChanTrySend (select-send with default) on a closed channel returned false instead of panicking", r)
 			}
 			if o.k == 'C' {
 				nClose++
@@ -512,11 +522,8 @@ func (r *run) oracle() {
 			} else {
 				keys["generic"] = ""
 			}
-		case o.k == 's' && !o.pending && !o.ok && closed:
-			keys["x"] = ""
 		}
 	}
-	delete(keys, "x")
 	if _, g := keys["generic"]; !g && len(keys) > 0 && check(r.cfg.Cap, rep, dead) {
 		for k, w := range keys {
 			viol(k, w, r)
@@ -524,6 +531,18 @@ func (r *run) oracle() {
 		return
 	}
 	viol("chan-history-not-linearizable", "the observed results cannot be explained by Go's channel semantics", r)
+}
+
+// closedBeforeInvoke: some ChanClose returned before o was invoked
+func closedBeforeInvoke(r *run, o *opRec) bool {
+	for _, os := range r.ops {
+		for _, c := range os {
+			if c.k == 'C' && c.ret >= 0 && c.ret < o.inv {
+				return true
+			}
+		}
+	}
+	return false
 }
 
 // ---------------------------------------------------------------- exploration
